@@ -119,7 +119,10 @@ def max_intermediate(tree, x):
         v = Node(node.op, tuple(Node('const', const=float(t)) for t in a), node.const)(x)
         best.append(abs(float(v)))
         return float(v)
-    walk(tree)
+    import warnings
+    with warnings.catch_warnings():
+        warnings.simplefilter('ignore')
+        walk(tree)
     return max(best)
 
 
@@ -150,7 +153,11 @@ def gen_program(rng, nmax, depth=None, xs=None):
         if mags[-1] > 8.0 ** (len(mags) - 1) * max(mags[:3] + [1e-300]):
             continue
         try:
-            if not max_intermediate(tree, x) < 1e60:      # moderate intermediates only (see known finding on _arg_c's clip)
+            # moderate intermediates only (see the known finding on _arg_c's clip), also on the interval the default step
+            # generators reach: base_step 2 * step_nom(x) on either side of x
+            reach = 2.0 * max(math.log(1.718281828459045 + abs(x)), 1.0)
+            pts = [x] + [x + s * reach * t for s in (-1, 1) for t in (0.1, 0.5, 1.0)]
+            if not all(max_intermediate(tree, p) < 1e60 for p in pts):
                 continue
         except (ValueError, ZeroDivisionError, OverflowError, FloatingPointError):
             continue
